@@ -113,6 +113,73 @@ Definition io_exact (p : prog) (inputs outputs : list (string * var)) (drop : bo
 Definition depends_on (p : prog) (main : nat) : list var :=
   map argvar (filter (is_arg p) (postorder (2 * fuel_of p) (full_adj p) (NIntro main))).
 
+(* ---------- inlined blocks: the emitted nodes are the foreign graph under a consistent, injective renaming ---------- *)
+Fixpoint zipo {A B} (a : list A) (b : list B) : option (list (A * B)) :=
+  match a, b with
+  | [], [] => Some []
+  | x :: a', y :: b' => option_map (cons (x, y)) (zipo a' b')
+  | _, _ => None end.
+Definition oapp {A} (a b : option (list A)) : option (list A) :=
+  match a, b with Some x, Some y => Some (x ++ y)%list | _, _ => None end.
+(* pairs (original value name, emitted value name) in traversal order; None when the structures differ *)
+Fixpoint alpha_node (n : onode) (r : mraw) {struct n} : option (list (string * string)) :=
+  match n, r with ONode _ op dom i o al, MRaw _ op' dom' i' o' al' =>
+    if negb (String.eqb op op' && String.eqb dom dom') then None else
+    oapp (oapp (zipo i i') (zipo o o'))
+         ((fix go (l : list (string * option ograph)) (l' : list (string * option mrawgraph)) {struct l} : option (list (string * string)) :=
+             match l, l' with
+             | [], [] => Some []
+             | (k, None) :: t, (k', None) :: t' => if String.eqb k k' then go t t' else None
+             | (k, Some g) :: t, (k', Some g') :: t' => if String.eqb k k' then oapp (alpha_graph g g') (go t t') else None
+             | _, _ => None end) al al')
+  end
+with alpha_graph (g : ograph) (r : mrawgraph) {struct g} : option (list (string * string)) :=
+  match g, r with OGraph gi gin b go_ _, MRawGraph gi' gin' b' go' =>
+    oapp (oapp (oapp (zipo gi gi') (zipo gin gin'))
+               ((fix go (l : list onode) (l' : list mraw) {struct l} : option (list (string * string)) :=
+                   match l, l' with
+                   | [], [] => Some []
+                   | n :: t, n' :: t' => oapp (alpha_node n n') (go t t')
+                   | _, _ => None end) b b'))
+         (zipo go_ go')
+  end.
+Definition pair_functional (ps : list (string * string)) : bool :=
+  forallb (fun a => forallb (fun b => implb (String.eqb (fst a) (fst b)) (String.eqb (snd a) (snd b))) ps) ps.
+Definition pair_injective (ps : list (string * string)) : bool :=
+  forallb (fun a => forallb (fun b => implb (String.eqb (snd a) (snd b)) (String.eqb (fst a) (fst b)) || String.eqb (snd a) "") ps) ps.
+(* inputs of the foreign graph are renamed to the operand names, outputs to the result names, "" stays "" *)
+Definition alpha_ok (om : ograph) (ins_names outs_names : list string) (body : list mraw) : bool :=
+  match om with OGraph gi _ b go_ _ =>
+    match (fix go (l : list onode) (l' : list mraw) {struct l} : option (list (string * string)) :=
+             match l, l' with
+             | [], _ => Some []                           (* trailing Identity nodes for pass-through outputs *)
+             | n :: t, n' :: t' => oapp (alpha_node n n') (go t t')
+             | _, _ => None end) b body with
+    | None => false
+    | Some ps =>
+      let ps_in := combine gi ins_names in
+      (* an output that is also an input is named after the operand *)
+      let ps_out := filter (fun kv => negb (mem String.eqb (fst kv) gi)) (combine go_ outs_names) in
+      let all := (ps_in ++ ps_out ++ ps)%list in
+      (* injectivity is required of the names that are internal to the block (two inputs may be bound to one operand) *)
+      pair_functional all && pair_injective (filter (fun kv => negb (mem String.eqb (fst kv) gi)) ps) &&
+      forallb (fun kv => String.eqb (fst kv) "" && String.eqb (snd kv) "" || negb (String.eqb (fst kv) "") && negb (String.eqb (snd kv) "")) ps
+    end
+  end.
+Fixpoint inlines_node (n : mnode) : list (nref * list string * list string * list mraw) :=
+  match n with
+  | MInline _ u i o b => [(u, i, o, b)]
+  | MNode _ _ _ _ _ _ al => flat_map (fun ka => match snd ka with Some g => inlines_graph g | None => [] end) al
+  | _ => [] end
+with inlines_graph (g : mgraph) : list (nref * list string * list string * list mraw) :=
+  match g with MGraph _ b _ => flat_map inlines_node b end.
+Definition inline_blocks_alpha (p : prog) (m : model) : bool :=
+  forallb (fun x => match x with (u, i, o, b) =>
+     match u with
+     | NReal n => match kind (getn p n) with KInline om _ => alpha_ok om i o b | _ => false end
+     | NIntro _ => false end end)
+   (inlines_graph (mmain m) ++ flat_map (fun f => flat_map inlines_node (f_body f)) (mfunctions m))%list.
+
 (* ---------- functions ---------- *)
 Definition key_eqb (a b : string * string) := String.eqb (fst a) (fst b) && String.eqb (snd a) (snd b).
 Definition func_key_of (p : prog) (u : nref) : option (string * string) :=
@@ -148,7 +215,7 @@ Definition validators (p : prog) (r : request) (m : model) : bool :=
     let p' := with_main p (Some (main_args inputs)) outputs in
     global_unique (mmain m) && node_names_unique (mmain m) && imports_unique m &&
     emitted_once p' (mmain m) && placed p' (mmain m) && check_plan p' 0 (mmain m) &&
-    functions_exact p' m && function_imports_cover p' m && function_plans p' m &&
+    functions_exact p' m && function_imports_cover p' m && function_plans p' m && inline_blocks_alpha p' m &&
     io_exact p' inputs outputs (r_drop r) (depends_on p' 0) (mmain m)
   | _, _ => false end.
 
